@@ -303,7 +303,18 @@ def run(chk, repo, tier):
                     bad.append(f'refused with TypeError [{conds_str(p)[:80] or "always"}]')
             if not want and not any(p.status == 'raise' and p.exc == 'TypeError' for p in ps):
                 bad.append('never refused with TypeError')
-            chk.ob('C08-c', 'T-transition', key, f'propagation from {name}', not bad,
+            verdict = not bad
+            refusing = any(p.status == 'raise' and p.exc == 'TypeError' for p in ps)
+            unresolved = any(o is None for p in ps if p.status == 'return' for e in p.calls('wavefront.Wavefront.empty')
+                             for o in [pt_name(e.bound.get('ptype'))])
+            tag_ = f"('ptype', '{name}')"
+            open_test = any(tag_ in fmt(c) for p in ps for c, _pol, _n in p.conds)
+            if bad and ((refusing and seen and open_test) or unresolved):
+                # with the type of the wavefront given, the type test still goes both ways (or the resulting type is not a
+                # value): the look-up is written in a way that is not evaluated - no verdict for this type
+                verdict = None
+                bad = ['undecided: the plane-type test does not fold for a wavefront of this type'] + bad
+            chk.ob('C08-c', 'T-transition', key, f'propagation from {name}', verdict,
                    f'documented: {want or "refused (TypeError)"}; code: {"; ".join(bad[:2]) or "as documented"}', f.loc())
 
     # ------------------------------------------------------------ C08-d / f
